@@ -279,7 +279,75 @@ func vShow(v interface{}) string {
 
 // uninterpreted functions (natively: some fixed function)
 // natively an arbitrary fixed non-identity function stands in for the uninterpreted one
-func vUF1[T vScalar](name string, x T) T { return vUFmix(x, x) }
+// vUF1: an arbitrary (uninterpreted) function of x. Natively: the interpretation the solver chose for this counterexample if
+// the replay file carries one for this argument ("uf|<name>|<arg>"), otherwise a fixed non-trivial stand-in.
+func vUF1[T vScalar](name string, x T) T {
+	if tag, bits, ok := vScalarBits(x); ok {
+		if lit, ok := vRF.Model["uf|uf_"+name+"_"+tag+"|"+tag+":"+strconv.FormatUint(bits, 10)]; ok {
+			if r, ok := vScalarFromLit[T](lit); ok {
+				return r
+			}
+		}
+	}
+	return vUFmix(x, x)
+}
+
+func vScalarBits(x interface{}) (string, uint64, bool) {
+	switch v := x.(type) {
+	case float64:
+		return "f64", math.Float64bits(v), true
+	case float32:
+		return "f32", uint64(math.Float32bits(v)), true
+	case int:
+		return "u64", uint64(v), true
+	case int64:
+		return "u64", uint64(v), true
+	case uint:
+		return "u64", uint64(v), true
+	case uint64:
+		return "u64", v, true
+	case int32:
+		return "u32", uint64(uint32(v)), true
+	case uint32:
+		return "u32", uint64(v), true
+	case int16:
+		return "u16", uint64(uint16(v)), true
+	case uint16:
+		return "u16", uint64(v), true
+	case int8:
+		return "u8", uint64(uint8(v)), true
+	case uint8:
+		return "u8", uint64(v), true
+	}
+	return "", 0, false
+}
+
+func vScalarFromLit[T vScalar](lit string) (T, bool) {
+	var z T
+	i := strings.Index(lit, ":")
+	if i < 0 {
+		return z, false
+	}
+	bits, err := strconv.ParseUint(lit[i+1:], 10, 64)
+	if err != nil {
+		return z, false
+	}
+	rv := reflect.ValueOf(&z).Elem()
+	switch rv.Kind() {
+	case reflect.Int, reflect.Int8, reflect.Int16, reflect.Int32, reflect.Int64:
+		w := uint(rv.Type().Size() * 8)
+		rv.SetInt(int64(bits<<(64-w)) >> (64 - w))
+	case reflect.Uint, reflect.Uint8, reflect.Uint16, reflect.Uint32, reflect.Uint64:
+		rv.SetUint(bits)
+	case reflect.Float32:
+		rv.SetFloat(float64(math.Float32frombits(uint32(bits))))
+	case reflect.Float64:
+		rv.SetFloat(math.Float64frombits(bits))
+	default:
+		return z, false
+	}
+	return z, true
+}
 func vUF2[T vScalar](name string, x, y T) T { return vUFmix(x, y) }
 
 func vUFmix[T vScalar](x, y T) T {
